@@ -866,10 +866,85 @@ def p_C17(ctx):
     return ctx.finish("every string of at most 2 (3) atoms from Output!TextAtoms (TLC-enumerated) is placed in a component comment, a metadata value and the factor comments of a lattice building that is then rendered; lattice buildings, random buildings and all shipped files are rendered twice; for the shipped files the documents written by the real program (--xml --txt --json) are lexed and compared too; TLC judges XML by a pushdown acceptor + element counts + numeric leaves, every number of the plain report against the value of its path, the JSON re-read and run-to-run stability")
 
 
+def p_C18(ctx):
+    import cli, shutil
+    ctx.mc("MC_C18", "MC_C18_quick.cfg")
+    lat = lattice(ctx)
+    runs = [{"tag": "orig"}, {"tag": "reload", "reload": True}]
+    def rt(cs, cm=None):
+        for k, c in enumerate(cs):
+            c = json.loads(json.dumps(c))
+            c["roundtrip"] = True
+            c["runs"] = runs
+            if cm and "comps" in c["src"]:
+                c["src"]["comps"][0]["cm"] = cm
+                c["meta"] = [["CTE_AREAREF", "12.5"], ["Nota", "texto libre"]]
+            yield c
+    ctx.replay(rt(stride(vlib.mc_cases(lat), 30 if ctx.quick else 3, ctx.seed % 30 if ctx.quick else 0), "comentario 1"), "lattice", "Trace_C18")
+    ctx.replay(rt(file_cases(None, locs=("PENINSULA", "CANARIAS"))), "files", "Trace_C18")
+    ctx.replay(rt(rnd(ctx, 150, 5000, None, aux=True)), "random", "Trace_C18")
+    c06 = ctx.mc("MC_Comp", "MC_Comp_C06_thorough.cfg")
+    def evalable(cs):
+        for c in cs:
+            c.update({"fac": {"mode": "loc", "loc": "PENINSULA"}, "kexp": [0, 1], "area": [1, 1], "lm": False})
+            yield c
+    ctx.replay(rt(evalable(stride(vlib.mc_cases(c06), 12 if ctx.quick else 2))), "aux-family", "Trace_C18")
+    # three-decimal values exercise the rounding of the printed form
+    three = [{"src": {"text": "0, CONSUMO, ILU, ELECTRICIDAD, 1.005, 0.125\n0, PRODUCCION, EL_INSITU, 2.675, 0.004\n1, CONSUMO, ACS, EAMBIENTE, 3.333, 1.115\nDEMANDA, ACS, 4.445, 1.005"},
+              "fac": {"mode": "file", "path": REPO + "/test_data/factores_paso_test.csv"}, "kexp": [1, 2], "area": [1, 1], "lm": False}]
+    ctx.replay(rt(three), "three-decimals", "Trace_C18")
+    # --- the real program: run, save with --oc --of, run again on the saved files
+    d = os.path.join(WORK, "run", ctx.pid)
+    tmp = os.path.join(d, "cli")
+    shutil.rmtree(tmp, ignore_errors=True)
+    os.makedirs(tmp, exist_ok=True)
+    texts = [(os.path.relpath(p, REPO), open(p, encoding="utf-8", errors="replace").read()) for p in shipped_files()]
+    texts += [("shape%d" % i, t) for i, t in enumerate(C08_SHAPES)]
+    import gen
+    texts += [("random%d" % i, render_abs(c["src"]["comps"])) for i, c in enumerate(gen.cases(ctx.seed, 40 if ctx.quick else 1000, None, aux=True))]
+    inp = []
+    for name, text in texts:
+        ctx.ncases += 1
+        n = ctx.ncases
+        ctx.cases[n] = {"name": name, "text": text}
+        base = os.path.join(tmp, str(n))
+        open(base + ".in.csv", "w").write(text)
+        r1 = cli.run_proc(["-c", base + ".in.csv", "-l", "PENINSULA", "--arearef=50", "--kexp=0.5", "--oc", base + ".oc.csv", "--of", base + ".of.csv", "--json", base + ".j1"], tmp)
+        inp.append({"case": n, "tag": "orig", "json": base + ".j1", "exit": r1["exit"] if isinstance(r1["exit"], int) else -1})
+        if r1["exit"] == 0:
+            r2 = cli.run_proc(["-c", base + ".oc.csv", "-f", base + ".of.csv", "--json", base + ".j2"], tmp)
+            inp.append({"case": n, "tag": "reload", "json": base + ".j2", "exit": r2["exit"] if isinstance(r2["exit"], int) else -1})
+    ipath, tpath = os.path.join(d, "cli.in"), os.path.join(d, "cli.ndjson")
+    with open(ipath, "w") as f:
+        for x in inp:
+            f.write(json.dumps(x) + "\n")
+    vlib.run_harness("flatjson", ipath, tpath)
+    res = vlib.validate("Trace_C18", tpath)
+    ctx.events += res["events"]
+    ctx.verdicts += res["verdicts"]
+    ctx.unjudged += res["unjudged"]
+    if not res["accepted"]:
+        ctx.rejected = True
+    if res["verdicts"]:
+        for line in open(tpath):
+            e = json.loads(line)
+            ctx.vevents[(e.get("case"), e.get("tag"))] = {"comps": e.get("comps")}
+    shutil.rmtree(tmp, ignore_errors=True)
+    ctx.extra["cli_save_reload_runs"] = len(texts)
+    ctx.nontrivial = set(range(ctx.ncases))
+    ctx.samples = [{"case": 1, "src": ctx.cases[1]["src"], "runs": "RoundTrip event (printed lines, re-read set) then Eval orig / reload"}]
+    ctx.assumptions = ["values are compared at the printed precision: half a printed unit per value (2 decimals for energies, 3 for factors)",
+                       "an auxiliary line carries no service in the text format: auxiliaries are compared by their per-system sums after re-normalisation",
+                       "when rounding to two decimals makes the re-normalisation add or drop a completion of one printed unit, components are compared per tag tuple",
+                       "k_exp is saved with one decimal and the area with two: the CLI histories use such values", TRUST]
+    return ctx.finish("RoundTrip events: component and factor sets of lattice buildings (with comments and metadata), shipped files, random buildings with auxiliaries, the MC_Comp auxiliaries family and three-decimal values are written with the library's Display, tokenised, read back and evaluated again; the real program is run on shipped files, shapes and random buildings, saves with --oc --of and is run again on the saved files (results flattened from --json); TLC judges printed lines against TextFormat!PrintLine, the re-read sets and both evaluations")
+
+
 PROPS = {
     "C01": p_C01,
     "C16": p_C16,
     "C17": p_C17,
+    "C18": p_C18,
     "C19": p_C19,
     "C02": p_C02,
     "C03": p_C03,
